@@ -908,6 +908,24 @@ def handle (case obs : List String) : String × String :=
     | some depth, some c, some m, some d, some (stmd, []) =>
       if c ≤ 16 && ["from", "try", "recover"].contains how then handleFerr how depth (some (c, m, d, stmd)) obs else bad
     | _, _, _, _, _ => bad
+  | "mapi" :: rest =>
+    match HMap.parse rest with
+    | some (h, []) =>
+      -- oracle and model coincide here (counting): entries, distinct names; every hint brackets the
+      -- real count; capacity calls and clones change nothing; a cleared map is empty and usable
+      let keys := (h.map (·.1)).eraseDups.length
+      let reuse : HMap := [(HMap.name "x-a", [49]), (HMap.name "k-bin", Ascii.ofString "AQI")]
+      let expected := ["len", toString h.length, "keys", toString keys, "empty", if h.isEmpty then "1" else "0",
+        "hints", "1", "cap", "1", "clone", "1", "cleared", "0", "0", "reuse"] ++ renderRows (specView reuse)
+      let field (name : String) : Option String := match splitOn1 name obs with | some (_, x :: _) => some x | _ => none
+      (join expected, verdict [("len-counts-every-value", field "len" == some (toString h.length)),
+        ("keys-len-counts-distinct-names", field "keys" == some (toString keys)),
+        ("is-empty-iff-no-entry", field "empty" == some (if h.isEmpty then "1" else "0")),
+        ("iterator-size-hints-bracket-the-count", field "hints" == some "1"),
+        ("capacity-calls-change-no-entry", field "cap" == some "1"),
+        ("clones-are-independent", field "clone" == some "1"),
+        ("cleared-map-is-empty-and-usable", obs.dropWhile (· != "cleared") == expected.dropWhile (· != "cleared"))])
+    | _ => bad
   | "peer" :: "cli" :: shape :: rest =>
     if !["u", "s"].contains shape then bad else
     match HMap.parse rest with
